@@ -48,6 +48,15 @@ type Spec struct {
 	// Post runs once in the orchestrator after the workers (extra stages such
 	// as the real binary); it may add violations and coverage.
 	Post func(seed uint64, tier string, cov *Cov) ([]*Violation, map[string]any, error)
+	// NondetClause: for a property that is itself about determinism (C06). A
+	// violation that was observed once and does not show again when its
+	// materialised case - same bytes, same options, same simulator-chosen map
+	// order - is executed again is then itself the finding: the outcome depends
+	// on something the simulator does not control (goroutines the code under
+	// test starts on its own). It is reported under this clause with a replay
+	// file marked non-deterministic (the replay repeats the case until outcomes
+	// differ). Without it such a violation is infrastructure trouble (exit 2).
+	NondetClause string
 	// MustReach: reach probes that have to be above zero after a batch. A probe
 	// stuck at zero means the workload no longer gets to what the check is
 	// about (a source file of the generated tree that stopped parsing, a stage
